@@ -17,6 +17,18 @@ CHECKS = {
          "Enumerates the script space of the quantifier: pay answer (succeeded/pending/failed/transport error) x every sequence of status answers (not-found/error/failed/pending/succeeded; quick: <=2, thorough: <=3, i.e. scripts of length <=4) x the channel each answer is consumed through (melt's own extra check, quote poll, checkstate) x final outcome x MPP, plus seeded random scripts with background traffic. Oracle: state machine LOCKED/SPENT/RELEASED written from the statement; melt response, quote poll, checkstate and a follow-up swap must agree with it, the preimage must be the payment's, the next poll after the final outcome must adopt it.", "§9 C05"),
  "C07": ("fault_enumeration", "enumeration of (operation x call position x {crash, storage error}) + restart + adversarial follow-up; seeded double-fault/background search",
          "For each of 13 operations (mint quote, mint, locked mint, swap, melt x 5 Lightning outcomes, internal settlement, pending-melt resolution via poll and via checkstate, runtime rotation) a crash (all goroutines of the mint die at their seam, DB handle closed, LoadMint on the same directory) or an injected storage error at every position k=1..12 between its consecutive storage/Lightning calls; then restore/checkstate of everything acknowledged (D), retry/restore/poll of the interrupted operation (A), keyset comparison, Book invariants and drain audit (S). Thorough adds random prior histories and a concurrent background request. 15 genuine atomicity defects that need transactional redesign are listed in known_findings.json and reported as KNOWN-FINDING.", "§9 C07"),
+ "C04": ("exploration", "seeded histories with a forging actor; accept-audit against harness-derived keys",
+         "A forging actor takes valid unspent proofs (any keyset, after rotations and restarts that re-derive keys) and presents 16 kinds of single-field mutations and forgeries through swap and melt, interleaved with honest traffic. Oracle: every input of every accepted swap/paid melt on the wire must satisfy C == k(id,amount)*hash_to_curve(secret) for the key the harness derives itself (own BIP32 + hash-to-curve over the stored seed); honest unspent proofs must be accepted; a rejected forgery leaves the original spendable. The input-quantified part of the statement is covered only on values arising in simulated histories plus this mutation set.", "§9 C04"),
+ "C06": ("exploration", "grammar-mutated requests through the real handler at every state of a running history; full database dump equality + panic trap",
+         "Before each valid request (mint quote, mint, locked mint, swap, melt quote, melt, checkstate, restore) 1-3 mutants from a 23-kind grammar (each list emptied/nulled, each field dropped/retyped/garbled/oversized, truncated JSON, wrong content type, semantic duplicates such as two outputs sharing one B_) are delivered through the real HTTP handler. Oracle: complete dump of all SQLite tables plus the Lightning ledger before/after every non-200 answer must be equal (UNPAID->PAID of a really paid invoice normalised), no handler panic, and the original request then succeeds.", "§9 C06"),
+ "C09": ("exploration", "seeded operator histories (restarts, load-time and runtime rotations concurrent with traffic); re-derivation of every keyset",
+         "Up to 5 keyset generations via restart-rotation and runtime RotateKeyset racing a swap, fees from {0,100,250,1000,2500}, traffic on old and new keysets. After every load/rotation: published keysets are a superset of the previous ones with identical ids/keys/fees, each id is the harness NUT-02 derivation of its 60 keys, each key the harness BIP32 derivation m/0'/0'/idx'/i' of the stored seed, exactly one active; signatures only on a keyset active during the request; outputs on inactive/unknown keysets refused; swaps at the exact fee boundary accepted and one sat above refused per input keyset; DLEQ of every signature verified.", "§9 C09"),
+ "C15": ("exploration", "seeded histories with truth queries; reference ledger + porcupine linearizability of concurrent episodes",
+         "Histories with swaps, melts in every Lightning outcome, internal settlement, rotations and restarts; checkstate queries mixing spent/unspent/pending/unknown/repeated/malformed Ys and restore queries mixing signed and never-signed B_s, compared with the Book (order, state, spend witness, exact (amount,id,C_,DLEQ) of every signature, nothing for unsigned). Concurrent episodes of swaps, state checks and restores on the same secrets/outputs are checked for linearizability with porcupine (per-secret spend register, per-B_ signature register; keys touched by melts judged by invariants only).", "§9 C15"),
+ "C16": ("exploration", "seeded histories under every limits configuration; ledger sums and big-integer limit rules",
+         "27 limit configurations (max balance / mint max / melt max each unset, small, at the boundary) x histories with fee-bearing keysets, melts, rotations, restarts. After every step with nothing unresolved: IssuedEcash/RedeemedEcash per keyset equal the Book's sums of signatures handed out and proofs consumed, TotalBalance is their difference, /v1/info shows minting disabled iff balance >= maximum; quote requests at limit-1/limit/limit+1, near 2^63/2^64 and where balance+amount wraps are compared with a math/big evaluation of the three limit rules incl. the error code.", "§9 C16"),
+ "C20": ("exploration", "seeded histories through the HTTP handler with hand-built JSON; shape validator, NUT error-code table, NUT-19 exactly-once cache check",
+         "Every exchange of random histories is validated against restated NUT shapes (string states, lower-case hex points, sorted key maps, field types, 200/400 only, {detail,code} with NUT codes). 18 rejection causes are provoked with exactly one cause each and the code compared with the restated NUT error table. Responses to injected storage/Lightning failures must be 400 without the injected error text. Byte-identical replays of successful swap/mint requests within the TTL (also after clock advances and other traffic) must return identical bytes with zero storage/Lightning calls by the handler; near-replays (one byte added, query string, other path, other method) must not be served from the cache.", "§9 C20"),
 }
 
 NA = {
